@@ -364,7 +364,8 @@ PROPS = {
                     '(2) Keyword-valued scalars (Marker, Remove, NA, true, false; Null on the reader side): the real writers emit M R NA T F '
                     '(Verus after rule R18, and Kani), Lexer::read maps a capitalised literal through the grammar\'s keyword table, and '
                     'lemma_keyword_roundtrip composes them.'),
-        not_decided=('that the lexer hands the literal it has just read to parse_xstr_body (Lexer::read is proved total and for its keyword/string/ref clauses only); '
+        not_decided=('token level: Lexer::read is proved to return, for a token starting with a quote, backtick, ^, @ or a capitalised literal followed by (, '
+                     'exactly the Str / Uri / Symbol / Ref / XStr its scalar parser denotes (Uri and XStr clauses assume an empty peek stash); numbers, dates and coordinates are not decided; '
                      'the Uri reader clause, like the Ref one, assumes an empty peek stash at the start of the token; '
                      'the Ref reader clause assumes an empty peek stash at the start of the token (true after every token the lexer produces, not proved); Number, Coord, Date, Time, DateTime (core::fmt / chrono text); List, Dict and Grid '
                      'layout on the reader side; nesting. Assumed: the UTF-8 axioms of strspec.vt, the two core::fmt helper contracts used by '
